@@ -121,6 +121,11 @@ def builder_oracle(history, steps, i, st):
     return fails
 
 
+def n_docs(obs):
+    docs = obs.get('docs') if isinstance(obs, dict) else None
+    return len(docs) if isinstance(docs, list) else None
+
+
 def oracle(history, steps):
     fails = []
     for i, st in enumerate(steps):
@@ -144,7 +149,9 @@ def oracle(history, steps):
         errors = []
         state = state_of(steps[i - 1].obs) if i else state_of({'docs': [], 'indexes': []})
         aborted = None
+        ndocs = n_docs(steps[i - 1].obs) if i else 0
         for j, (r, t) in enumerate(zip(reqs, seq)):
+            before, ndocs = ndocs, n_docs(t.obs)
             if t.out[0] == 'err':
                 if t.out[1] in ('WriteError', 'DuplicateKeyError'):
                     errors.append((j, 11000 if t.out[1] == 'DuplicateKeyError' else None))
@@ -163,7 +170,10 @@ def oracle(history, steps):
                 tot['nRemoved'] += t.out[1]
             else:
                 o = t.out[1]
-                if o.get('upserted') is not None:
+                # an upsert shows as an upserted_id - or, when the upserted document has a null
+                # _id (upserted_id None, matched 0), as one more document in the collection
+                if o.get('upserted') is not None or (
+                        before is not None and ndocs is not None and ndocs > before):
                     tot['nUpserted'] += 1
                     upserted.append((j, freeze(o['upserted'])))
                 else:
@@ -228,4 +238,4 @@ def nontrivial(history, steps):
     return False
 
 
-run, replay, replay_finding = histcheck.module_api(sys.modules[__name__], 800, 20000)
+run, replay, replay_finding = histcheck.module_api(sys.modules[__name__], 800, 20000, fixed=True)
